@@ -661,6 +661,9 @@ func (fr *Frame) appendBuiltin(c *ssa.CallCommon, args []SV, st *State, g string
 		addLen = "0"
 	}
 	newLen := fc.define(fr.prefix+"applen", "Int", plus(slen(s.t), addLen))
+	// the result of an append that returns is a slice, so its length is an int (the runtime panics with "len out of range" otherwise; the
+	// operand slices exist simultaneously, so for elements of non-zero size the sum of their lengths cannot reach 2^63 in the first place)
+	fc.assume(g, app("<", newLen, "9223372036854775808"))
 	// result: either in place (capacity suffices) or a fresh block; Go decides by capacity
 	inPlace := app("<=", newLen, scap(s.t))
 	p := fc.alloc(st)
@@ -704,6 +707,11 @@ func (fr *Frame) appendBuiltin(c *ssa.CallCommon, args []SV, st *State, g string
 		}
 		fc.emit(fmt.Sprintf("(assert (forall ((k Int)) (! (=> (and (<= 0 k) (< k %s)) (= (select %s %s) %s)) :pattern ((select %s %s)))))",
 			addLen, nb, idx(ro, "(+ "+slen(s.t)+" k)"), moreAt, nb, idx(ro, "(+ "+slen(s.t)+" k)")))
+		// the same fact indexed by the position j in the result (the trigger above only matches indices written as len+k)
+		if tc.sortOf(more.typ) != "Str" {
+			fc.emit(fmt.Sprintf("(assert (forall ((j Int)) (! (=> (and (<= %s j) (< j %s)) (= (select %s %s) (select (select %s %s) %s))) :pattern ((select %s %s)))))",
+				slen(s.t), newLen, nb, idx(ro, "j"), heap, sarr(more.t), idx(soff(more.t), "(- j "+slen(s.t)+")"), nb, idx(ro, "j")))
+		}
 		// the common one-element case gets a ground instance
 		fc.emit(fmt.Sprintf("(assert (=> (= %s 1) (= (select %s %s) %s)))", addLen, nb, idx(ro, slen(s.t)), strings.ReplaceAll(moreAt, " k)", " 0)")))
 	}
